@@ -72,7 +72,10 @@ PROPS = {
                   "C06_join_refines_the_join_on_maps", "C06_direct_lookup_is_the_cell", "C06_items_equal_direct_lookups",
                   "C06_mutation_lands_on_the_visited_entities_only", "C06_other_storages_untouched",
                   "C06_cells_after_a_join", "C06_drain_removes_the_visited_only", "C06_joins_are_never_stuck",
-                  "C06_joins_add_no_member"],
+                  "C06_joins_add_no_member", "C06_bitset_tracks_the_plain_set",
+                  "C06_bitset_iteration_is_the_ascending_element_list",
+                  "C06_combined_masks_stand_for_the_combined_membership",
+                  "C06_mask_iteration_yields_exactly_the_members_in_index_order"],
         required="spec",
         nontrivial="history contains a join of at least two members that yields at least one item, over indices "
                    "on both sides of a layer boundary (64 / 4096) or with a negated / optional member",
@@ -82,7 +85,8 @@ PROPS = {
         theorems=["C07_parallel_is_sequential", "C07_pool_size_irrelevant", "C07_each_index_exactly_once",
                   "C07_any_storage_kind", "C07_any_split_same_final_storages", "C07_any_split_same_indices",
                   "C07_any_split_same_items", "C07_visits_of_distinct_indices_do_not_interfere",
-                  "C07_join_refines_the_join_on_maps"],
+                  "C07_join_refines_the_join_on_maps", "C07_every_split_tree_yields_each_member_exactly_once",
+                  "C07_a_split_loses_and_repeats_nothing"],
         required="spec",
         nontrivial="history contains a parallel join on a pool of at least two threads that yields at least two items",
     ),
@@ -442,6 +446,10 @@ def world_violation(pid, r):
     if pid == "C04":
         if code == 1 and is_store and not stale:
             return "a storage operation returned something else than the plain map (op %d: %s)" % (pos, wg.NAMES.get(op, op))
+    if pid in ("C08", "C16"):
+        d = amounts_violation(r)
+        if d:
+            return d
     if pid == "C08":
         d = ledger_violation(r)
         if d:
@@ -515,6 +523,28 @@ def members_read_only(p):
 
 
 DEFAULT_UID = 1 << 40
+
+
+def amounts_violation(r):
+    """C16 / C08 on the implementation alone: every change-set amount the harness made was destroyed exactly once by the
+    end of the history (the consuming joins hand amounts to the harness, which drops them; the slots die with it)"""
+    lg = r.get("ledger")
+    if not lg or lg[0] != 98:
+        return None
+    i = 2
+    nc = lg[i]; i += 1 + nc
+    nr = lg[i]; i += 1 + nr
+    if i >= len(lg) or lg[i] < 0:
+        return None
+    i += 1 + lg[i]
+    if i + 1 >= len(lg):
+        return None
+    made, gone = lg[i], lg[i + 1]
+    if made > gone:
+        return "%d change-set amounts were made but only %d destroyed by the end of the history (leaked)" % (made, gone)
+    if gone > made:
+        return "%d change-set amounts were made but %d destroyed (an amount was destroyed twice)" % (made, gone)
+    return None
 
 
 def ledger_violation(r):
@@ -672,6 +702,9 @@ def gen_store(pid, tier, seed, scale, rng, hists, stats):
         for _ in range((900 if q else 9000) * scale):
             hists.append(sg.lazy_history(rng, rng.randint(8, 45 if q else 120)))
             stats["lazy histories"] += 1
+        for _ in range((12 if q else 120) * scale):
+            hists.append(sg.lazy_flood_history(rng))
+            stats["lazy histories with several hundred pending actions"] += 1
     if pid in JOIN_PROPS:
         foci = {"C06": [("join", 5), ("restrict", 1), ("changeset", 1), ("par", 1)],
                 "C07": [("par", 1)], "C13": [("restrict", 1)], "C16": [("changeset", 1)]}[pid]
@@ -936,11 +969,32 @@ def check_world(pid, tier, seed):
         search_note = "failing-input search over %d further histories: %s" % (
             len(extra), "found" if violations else "none found")
 
+    # the masks themselves: the layered bit set of the model against the one the implementation is built on
+    mask_tie = None
+    mask_bad = []
+    if pid in ("C06", "C07"):
+        from . import hibit_check
+        import hibit_gen
+        _res, mask_bad, mstats = hibit_check.explore(600 if tier == "quick" else 40000, seed)
+        mask_tie = dict(mstats, disagreements=len(mask_bad),
+                        what="layers after add/remove, membership, sequential iteration and the leaves of a tree of "
+                             "BitProducer splits, for plain and combined (and / or / xor / and-not) sets: real "
+                             "hibitset types through the harness vs the extracted model (Bits/Hibit.v)")
+
     rc = 0
     for cls, r in known_hits.items():
         print("KNOWN-FINDING: property=%s %s" % (pid, known_cls[(pid, cls)]["text"]))
     replay = None
-    if violations:
+    if mask_bad and not violations:
+        b = min(mask_bad, key=lambda r: len(r["case"]))
+        replay = common.write_replay(pid, dict(property=pid, domain="hibit", case=b["case"],
+                                               history=hibit_gen.pretty(b["case"]), impl=b["impl"], model=b["model"],
+                                               what="the layered bit set behaves differently from its model "
+                                                    "(layers / membership / iteration order / leaves of a split tree)",
+                                               replay_cmd="./sv replay <this file>"))
+        print("VIOLATION property=%s replay=%s" % (pid, replay))
+        rc = 1
+    elif violations:
         desc, r = violations[0]
         small = shrink_world(pid, r["hist"])
         rs = run_world([small], fixed=True)[0]
@@ -989,12 +1043,13 @@ def check_world(pid, tier, seed):
                    "+ structured random + planted failing batches (+ long churn for C17), each executed on the real "
                    "World and on the extracted model") + "; non-trivial = " + p["nontrivial"]),
             generator=dict(gstats), op_histogram=dict(ophist), error_histogram=dict(errkinds),
+            mask_layer_tie=mask_tie,
             samples=samples, exhaustive=False, search=search_note,
             known_findings=[known_cls[(pid, c)]["text"] for c in known_hits],
         ),
         assumptions=["generations < 2^31 and indices < 2^24 (histories here are far shorter)",
                      "handles passed to the world were returned by it (the harness never forges handles)"],
-        wall_s=round(time.time() - t0, 2), violations=len(violations),
+        wall_s=round(time.time() - t0, 2), violations=len(violations) + len(mask_bad),
     )
     common.write_evidence(pid, ev)
     common.cleanup_run_dir()
@@ -1077,6 +1132,16 @@ def replay(path):
     if obj.get("domain") == "unwind":
         from . import unwind_check
         return unwind_check.replay(obj, path)
+    if obj.get("domain") == "hibit":
+        from . import hibit_check
+        r = hibit_check.run_cases([obj["case"]])[0]
+        print(json.dumps(r, indent=1))
+        common.cleanup_run_dir()
+        if not r["equal"]:
+            print("VIOLATION property=%s replay=%s" % (pid, path))
+            return 1
+        print("no violation on this case")
+        return 0
     if "encoded" not in obj:
         print(json.dumps(obj, indent=1))
         return 1
